@@ -236,6 +236,9 @@ def canonical_events(rr):
             hd = handles.get(h)
             ev = hd.get("wev") if hd else None
             if ev is not None and ev["ok"] == 1 and int(rec["at"]) == ev["off"] + len(ev["data"]):
+                # the bytes reach the file now, not when the handle was positioned: order the event here
+                ev["seq"] = seq
+                seq += 1
                 ev["data"] += data
                 ev["ok"] = int(rec["ok"] == "1")
                 ev["cut"] = int(rec.get("cut", "0"))
